@@ -469,8 +469,8 @@ func classify(err error) string {
 // classes that a failing Compile reports without the builder remembering them
 var compileTimeClass = map[string]bool{
 	"ETriggerUnsupported": true, "ENoStart": true, "ENoEnd": true, "EUninferred": true, "EDupMapTarget": true,
-	"EDagLoop": true, "EMaxStepsDag": true, "ECompiled": true, "EChainCompiled": true, "EMapped": true,
-	"EMapConflict": true, "EOther": true,
+	"EDagLoop": true, "EMaxStepsDag": true, "ECompiled": true, "EMapped": true,
+	"EMapConflict": true, "EOther": true, "EChainEmpty": true,
 }
 
 // ---------------------------------------------------------------- one execution
